@@ -20,7 +20,6 @@ import (
 
 	"github.com/honeytrap/honeytrap/director"
 	"github.com/honeytrap/honeytrap/event"
-	"github.com/honeytrap/honeytrap/listener"
 	"github.com/honeytrap/honeytrap/pushers"
 )
 
@@ -53,8 +52,10 @@ func (s *copyService) SetChannel(c pushers.Channel) {
 
 func (s *copyService) Handle(ctx context.Context, conn net.Conn) error {
 	defer conn.Close()
-	switch conn.(type) {
-	case *listener.DummyUDPConn:
+	// the server wraps every connection: the transport is told by the
+	// address, not by the concrete type of the connection
+	switch conn.RemoteAddr().Network() {
+	case "udp":
 		defer s.c.Send(event.New(
 			EventOptions,
 			event.Category("copy"),
@@ -74,7 +75,7 @@ func (s *copyService) Handle(ctx context.Context, conn net.Conn) error {
 		_, err = io.Copy(conn, conn2)
 
 		return err
-	case *net.TCPConn:
+	case "tcp":
 		defer s.c.Send(event.New(
 			EventOptions,
 			event.Category("copy"),
